@@ -123,10 +123,11 @@ class PathExpr:
             return ("undef", l)
         bb, idx, kind, payload = d
         if kind == "arg":
-            ty = re.sub(r"'[a-z_]+ ?", "", b.local_ty(l))
-            same = [i for i in range(1, b.argc + 1) if re.sub(r"'[a-z_]+ ?", "", b.local_ty(i)) == ty]
             # a small Copy value handed over by reference or by value is the same argument
-            return ("arg", re.sub(r"^&(?!mut )", "", ty), same.index(l))
+            norm = lambda i: re.sub(r"^&(?!mut )", "", re.sub(r"'[a-z_]+ ?", "", b.local_ty(i)))
+            ty = norm(l)
+            same = [i for i in range(1, b.argc + 1) if norm(i) == ty]
+            return ("arg", ty, same.index(l))
         here = (bb, idx)
         if kind == "call":
             t = payload
